@@ -91,6 +91,9 @@ def run(ctx):
                     RS.check(bad_msg, bad_mask)
                 except Exception:  # noqa
                     pass
+        if len(held) % 5 == 4:
+            # the message as a slice of the caller's receive buffer (memoryview) or as a list of octets
+            mb = memoryview(bytes(2) + bytes(msg))[2:] if len(held) % 10 == 4 else list(msg)
         out = RS.generate(mb, kb)
         if mutable and (bytes(mb) != bytes(msg) or bytes(kb) != bytes(mask)):
             out = bytes(12)          # recorded as a wrong word: the caller's buffers were altered
